@@ -39,7 +39,7 @@ pub fn c08_sanitize_metric_name_body(a: u8, b: u8, c: u8, n: u8) {
         assert!(ob[i] == if ok { buf[i] } else { b'_' });
         i += 1;
     }
-    kani::cover!(n == 3 && ob[0] == b'_' && ob[1] == b'9');
+    kani::cover!(n >= 2 && ob[0] == b'_' && ob[1] == b'9');
 }
 #[cfg(kani)]
 #[kani::proof]
@@ -68,4 +68,22 @@ pub fn c08_sanitize_label_key_body(a: u8, b: u8, c: u8, n: u8) {
 #[kani::unwind(5)]
 fn c08_sanitize_label_key() {
     c08_sanitize_label_key_body(kani::any(), kani::any(), kani::any(), kani::any());
+}
+
+// quick-tier variants: at most 2 ASCII chars (position 0 and a continuation position)
+#[cfg(kani)]
+#[kani::proof]
+#[kani::unwind(4)]
+fn c08_sanitize_metric_name_2() {
+    let n: u8 = kani::any();
+    kani::assume(n <= 2);
+    c08_sanitize_metric_name_body(kani::any(), kani::any(), 0x41, n);
+}
+#[cfg(kani)]
+#[kani::proof]
+#[kani::unwind(4)]
+fn c08_sanitize_label_key_2() {
+    let n: u8 = kani::any();
+    kani::assume(n <= 2);
+    c08_sanitize_label_key_body(kani::any(), kani::any(), 0x41, n);
 }
